@@ -18,6 +18,7 @@ Record quad := Quad { q_s : term; q_p : term; q_o : term; q_g : option term }.
 
 Definition xsd_string : runes := s2b "http://www.w3.org/2001/XMLSchema#string".
 Definition rdf_langString : runes := s2b "http://www.w3.org/1999/02/22-rdf-syntax-ns#langString".
+Definition rdf_dirLangString : runes := s2b "http://www.w3.org/1999/02/22-rdf-syntax-ns#dirLangString".
 
 (* ---------- writers ---------- *)
 Inductive emode := ENone | EEchar | EU4 | EU8.
@@ -91,8 +92,9 @@ Arguments POk {A}. Arguments PEof {A}. Arguments PBad {A}.
 Inductive res (A : Type) :=
 | Ok (a : A) (tr : list cev) (rest : list drune)
 | Eof                                   (* the reader ended here *)
-| Bad.                                  (* syntax error *)
-Arguments Ok {A}. Arguments Eof {A}. Arguments Bad {A}.
+| Bad                                   (* syntax error *)
+| Fuel.                                 (* the model's recursion budget ran out (never happens: NQProofs) *)
+Arguments Ok {A}. Arguments Eof {A}. Arguments Bad {A}. Arguments Fuel {A}.
 
 Definition hexv (r : N) : option N :=
   if rng 48 57 r then Some (r - 48)%N else if rng 65 70 r then Some (r - 55)%N else if rng 97 102 r then Some (r - 87)%N else None.
@@ -195,6 +197,7 @@ Definition open_iri (lt : drune) (inp : list drune) : pres runes :=
       if is_absolute s then POk s [(true, raw)] rest else PBad
   | Eof => PEof
   | Bad => PBad
+  | Fuel => PBad
   end.
 
 (* string body after the opening double quote *)
@@ -272,6 +275,7 @@ Definition open_langtag (at_ : drune) (inp : list drune) : pres runes :=
       end
   | Eof => PEof
   | Bad => PBad
+  | Fuel => PBad
   end.
 
 (* captureOpenLiteral: the opening double quote already read (qt) *)
@@ -301,7 +305,9 @@ Definition open_literal (qt : drune) (inp : list drune) (t : terminal) : pres te
                      | r2 :: rest3 =>
                          if negb (N.eqb (fst r2) 60) then PBad
                          else match open_iri r2 rest3 with
-                              | POk dt ps rest4 => POk (TLit lex dt None) ((true, raw) :: (false, [r0; r1]) :: ps) rest4
+                              | POk dt ps rest4 =>
+                                  if beq dt rdf_langString || beq dt rdf_dirLangString then PBad
+                                  else POk (TLit lex dt None) ((true, raw) :: (false, [r0; r1]) :: ps) rest4
                               | PEof => PEof
                               | PBad => PBad
                               end
@@ -311,6 +317,7 @@ Definition open_literal (qt : drune) (inp : list drune) (t : terminal) : pres te
       end
   | Eof => PEof
   | Bad => PBad
+  | Fuel => PBad
   end.
 
 (* captureOpenBlankNode: underscore and colon already read *)
@@ -346,6 +353,7 @@ Definition open_bnode (us colon : drune) (inp : list drune) : pres term :=
             end
         | Eof => PEof
         | Bad => PBad
+        | Fuel => PBad
         end
       else PBad
   end.
@@ -362,7 +370,7 @@ Inductive pos_kind := KSubject | KPredicate | KObject | KGraph.
 (* captureSubjectOrGraphValue / capturePredicate / captureObject: skip blanks and comments, then one term *)
 Fixpoint capture (fuel : nat) (k : pos_kind) (inp : list drune) (t : terminal) (tr : list cev) : res term :=
   match fuel with
-  | O => Bad
+  | O => Fuel
   | S f =>
       match inp with
       | [] => Eof
@@ -394,7 +402,7 @@ Fixpoint capture (fuel : nat) (k : pos_kind) (inp : list drune) (t : terminal) (
 Fixpoint after_object (fuel : nat) (nq : bool) (have_graph : bool) (inp : list drune) (t : terminal) (tr : list cev)
   : res (option term) :=
   match fuel with
-  | O => Bad
+  | O => Fuel
   | S f =>
       match inp with
       | [] => Eof
@@ -414,20 +422,22 @@ Fixpoint after_object (fuel : nat) (nq : bool) (have_graph : bool) (inp : list d
                 | Ok _ tr'' rest'' => Ok (Some g) tr'' rest''
                 | Eof => Eof
                 | Bad => Bad
+                | Fuel => Fuel
                 end
             | Eof => Eof
             | Bad => Bad
+            | Fuel => Fuel
             end
           else Bad
       end
   end.
 
 (* between statements: after a statement only blanks up to an end of line or a comment may follow *)
-Inductive gap := GStart (tr : list cev) (rest : list drune) | GEnd (tr : list cev) | GErr | GIo.
+Inductive gap := GStart (tr : list cev) (rest : list drune) | GEnd (tr : list cev) | GErr | GIo | GFuel.
 
 Fixpoint after_statement (fuel : nat) (inp : list drune) (t : terminal) (tr : list cev) : gap :=
   match fuel with
-  | O => GErr
+  | O => GFuel
   | S f =>
       match inp with
       | [] => match t with TEof => GEnd tr | TFail => GIo end
@@ -447,7 +457,7 @@ Fixpoint after_statement (fuel : nat) (inp : list drune) (t : terminal) (tr : li
 (* in front of a statement: blanks and comments; the input may end cleanly here *)
 Fixpoint before_statement (fuel : nat) (inp : list drune) (t : terminal) (tr : list cev) : gap :=
   match fuel with
-  | O => GErr
+  | O => GFuel
   | S f =>
       match inp with
       | [] => match t with TEof => GEnd tr | TFail => GIo end
@@ -463,7 +473,7 @@ Fixpoint before_statement (fuel : nat) (inp : list drune) (t : terminal) (tr : l
       end
   end.
 
-Inductive verdict := VOk | VSyntax | VIo.
+Inductive verdict := VOk | VSyntax | VIo | VFuel.
 
 Record stmt := Stmt { st_quad : quad; st_trace : list cev }.   (* the trace committed while reading it *)
 
@@ -478,35 +488,38 @@ Definition statement (nq : bool) (inp : list drune) (t : terminal) (tr0 : list c
           | Ok o tr3 r3 =>
               match after_object fuel nq false r3 t tr3 with
               | Ok g tr4 r4 => Ok (Quad s p o g) tr4 r4
-              | Eof => Eof | Bad => Bad
+              | Eof => Eof | Bad => Bad | Fuel => Fuel
               end
-          | Eof => Eof | Bad => Bad
+          | Eof => Eof | Bad => Bad | Fuel => Fuel
           end
-      | Eof => Eof | Bad => Bad
+      | Eof => Eof | Bad => Bad | Fuel => Fuel
       end
-  | Eof => Eof | Bad => Bad
+  | Eof => Eof | Bad => Bad | Fuel => Fuel
   end.
 
 (* the Next() loop over the whole document *)
 Fixpoint decode_loop (fuel : nat) (nq : bool) (first : bool) (inp : list drune) (t : terminal) : list stmt * verdict :=
   match fuel with
-  | O => ([], VSyntax)
+  | O => ([], VFuel)
   | S f =>
       let g1 := if first then GStart [] inp else after_statement (S (length inp)) inp t [] in
       match g1 with
       | GEnd _ => ([], VOk)
       | GErr => ([], VSyntax)
       | GIo => ([], VIo)
+      | GFuel => ([], VFuel)
       | GStart tr1 r1 =>
           match before_statement (S (length r1)) r1 t tr1 with
           | GEnd _ => ([], VOk)
           | GErr => ([], VSyntax)
           | GIo => ([], VIo)
+          | GFuel => ([], VFuel)
           | GStart tr2 r2 =>
               match statement nq r2 t tr2 with
               | Ok q tr3 r3 => let '(l, v) := decode_loop f nq false r3 t in (Stmt q tr3 :: l, v)
               | Eof => ([], match t with TEof => VSyntax | TFail => VIo end)
               | Bad => ([], VSyntax)
+              | Fuel => ([], VFuel)
               end
           end
       end
